@@ -532,6 +532,122 @@ class E(cohdl.Entity):
 '''
 
 
+# ---------------------------------------------------------------------------------------------------
+# per-class / per-entity state: designs whose entity CLASS is configured by module-level flags that a history
+# toggles between compilations (pool key `name@K=V,..` = same module, same class object, `configure(K=V,..)` called
+# before the compilation; `name` alone = `configure()` = defaults)
+# ---------------------------------------------------------------------------------------------------
+DYN = HEAD + '''
+DEBUG = False
+LANES = 2
+FAIL = ""
+
+def configure(**kw):
+    g = globals()
+    g.update(DEBUG=False, LANES=2, FAIL="")
+    g.update(kw)
+
+class E(cohdl.Entity):
+    clk = Port.input(Bit)
+    d = Port.input(Bit)
+    q = Port.output(Bit, default=Null)
+
+    def architecture(self):
+        lanes = []
+        for nr in range(LANES):
+            inp = std.add_entity_port(self, Port.input(BitVector[4], name=f"lane_in_{nr}"))
+            out = std.add_entity_port(self, Port.output(BitVector[4], name=f"lane_out_{nr}"))
+            lanes.append((inp, out))
+        dbg = None
+        if DEBUG:
+            dbg = std.add_entity_port(self, Port.output(Bit, name="dbg"))
+        if FAIL == "arch":
+            raise AssertionError("user check fails after the dynamic ports were added")
+        fail_trace = FAIL == "trace"
+
+        @std.sequential(std.Clock(self.clk))
+        def proc():
+            for inp, out in lanes:
+                out <<= ~inp
+            self.q <<= self.d
+            if dbg is not None:
+                dbg.next = self.d
+            if fail_trace:
+                self.q <<= self.d.nonexistent
+'''
+
+ATTR = HEAD + '''
+def configure(ARCH=None, PATH=None, SUBARCH=None):
+    for info, key, val in ((E._cohdl_info, "arch_name", ARCH), (Sub._cohdl_info, "path", PATH), (Sub._cohdl_info, "arch_name", SUBARCH)):
+        if val is None:
+            info.attributes.pop(key, None)
+        else:
+            info.attributes[key] = val
+
+class Sub(cohdl.Entity):
+    a = Port.input(Bit)
+    o = Port.output(Bit)
+
+    def architecture(self):
+        @std.concurrent
+        def logic():
+            self.o <<= ~self.a
+
+class E(cohdl.Entity, attributes={"comment": "top"}):
+    a = Port.input(Bit)
+    o = Port.output(Bit)
+    p = Port.output(Bit)
+
+    def architecture(self):
+        Sub(a=self.a, o=self.o)
+        Sub(a=self.o, o=self.p)
+'''
+
+# a sub-entity with dynamic ports instantiated twice + an inline entity of a class that is also compiled as top
+DYN_SUB = HEAD + '''
+WIDE = False
+
+def configure(**kw):
+    g = globals()
+    g.update(WIDE=False)
+    g.update(kw)
+
+class Sub(cohdl.Entity):
+    a = Port.input(Bit)
+    o = Port.output(Bit)
+
+    def architecture(self):
+        if WIDE:
+            extra = std.add_entity_port(self, Port.output(Bit, name="extra"))
+        else:
+            extra = None
+
+        @std.concurrent
+        def logic():
+            self.o <<= ~self.a
+            if extra is not None:
+                extra.next = self.a
+
+class E(cohdl.Entity):
+    a = Port.input(Bit)
+    o = Port.output(Bit)
+    p = Port.output(Bit)
+
+    def architecture(self):
+        x = Signal[Bit](name="x")
+        if WIDE:
+            Sub(a=self.a, o=self.o, extra=x)
+        else:
+            Sub(a=self.a, o=self.o)
+
+        @std.concurrent
+        def logic():
+            Sub(a=self.o, o=self.p, **({"extra": Signal[Bit](name="y")} if WIDE else {}))
+'''
+
+_DYN_PORTS2 = "A:lane_in_0 A:lane_out_0 A:lane_in_1 A:lane_out_1"
+_DYN_PORTS3 = _DYN_PORTS2 + " A:lane_in_2 A:lane_out_2"
+
 def _front(arch, trace):
     return f"<conv <arch:E {arch} > <blk {trace} > >"
 
@@ -552,6 +668,18 @@ POOL = {
     "a_inline": (A_INLINE, "ok", None, "<conv <arch:E > <blk <apply <arch:Inv > > > <blk <blk > > > " + IR.format("O:10")),
     "a_waitfor": (A_WAITFOR, "ok", None, _front("F:11", "<ctx:2 U <apply > >") + " " + IR.format("<sm O:11 >")),
     "a_types": (A_TYPES, "ok", None, _front("T:8 T:5 T:9 T:7 T:2", SEQ.format(0)) + " " + IR.format("O:12")),
+    "dyn": (DYN, "ok", None, _front(_DYN_PORTS2 + " F:13", SEQ.format(0)) + " " + IR.format("O:13")),
+    "dyn@LANES=3": (DYN, "ok", None, _front(_DYN_PORTS3 + " F:13", SEQ.format(0)) + " " + IR.format("O:13")),
+    "dyn@LANES=0": (DYN, "ok", None, _front("F:13", SEQ.format(0)) + " " + IR.format("O:13")),
+    "dyn@LANES=0,DEBUG=True": (DYN, "ok", None, _front("A:dbg F:13", SEQ.format(0)) + " " + IR.format("O:13")),
+    "dyn@DEBUG=True": (DYN, "ok", None, _front(_DYN_PORTS2 + " A:dbg F:13", SEQ.format(0)) + " " + IR.format("O:13")),
+    "attr": (ATTR, "ok", None, "<conv <arch:E <arch:Sub > <arch:Sub > > <blk <blk > > > " + IR.format("O:14")),
+    "attr@ARCH='rtl'": (ATTR, "ok", None, "<conv <arch:E <arch:Sub > <arch:Sub > > <blk <blk > > > " + IR.format("O:15")),
+    "attr@PATH='extlib.Sub',SUBARCH='impl'": (ATTR, "ok", None, "<conv <arch:E <arch:Sub > <arch:Sub > > <blk <blk > > > " + IR.format("O:16")),
+    "dynsub": (DYN_SUB, "ok", None, "<conv <arch:E <arch:Sub > > <blk <apply <arch:Sub > > <blk > > <blk <blk > > > " + IR.format("O:17")),
+    "dynsub@WIDE=True": (DYN_SUB, "ok", None, "<conv <arch:E <arch:Sub A:extra > > <blk <apply <arch:Sub > > <blk > > <blk <blk > > > " + IR.format("O:18")),
+    "dyn@FAIL='arch'": (DYN, "reject", "arch", "<conv <arch:E " + _DYN_PORTS2 + " !"),
+    "dyn@FAIL='trace',DEBUG=True": (DYN, "reject", "trace", "<conv <arch:E " + _DYN_PORTS2 + " A:dbg > <blk <ctx:0 <apply !"),
     "r_arch": (R_ARCH, "reject", "arch", "<conv <arch:E F:1 !"),
     "r_arch_pfx": (R_ARCH_PFX, "reject", "arch", "<conv <arch:E <pfx:archfail N:x > !"),
     "r_arch_sub": (R_ARCH_SUB, "reject", "arch", "<conv <arch:E <arch:Sub > !"),
